@@ -29,6 +29,9 @@ func init() {
 		Run: runC12,
 	})
 	addMutants("C12",
+		mutant{"LeaveSource shadows the parsed source", "multicast/peer.go",
+			"\tsip := netip.Addr{}\n\tif len(string(sourceIP)) > 0 {\n\t\tsip, err = parseIP(string(sourceIP))\n\t\tif err != nil {\n\t\t\treturn err\n\t\t}\n\t}\n\n\tif mip.Is4() || mip.Is4In6() {\n\t\treturn p.leaveIPv4(mip, sip)",
+			"\tsip := netip.Addr{}\n\tif len(string(sourceIP)) > 0 {\n\t\tsip, err := parseIP(string(sourceIP))\n\t\tif err != nil {\n\t\t\treturn err\n\t\t}\n\t\t_ = sip\n\t}\n\n\tif mip.Is4() || mip.Is4In6() {\n\t\treturn p.leaveIPv4(mip, sip)", "C12-R4"},
 		mutant{"short datagram re-parks the read-all", "packet.go",
 			"\tif err == sonicerrors.ErrWouldBlock {\n\t\tc.scheduleRead(b, readBytes, readAll, cb)", "\tif err == sonicerrors.ErrWouldBlock || err == nil {\n\t\tc.scheduleRead(b, readBytes, readAll, cb)", "C12-R1"},
 		mutant{"peer write parked after it succeeded", "multicast/peer.go",
